@@ -1045,8 +1045,18 @@ def _sub_attr(a):
 F_TYPES = [int, bool, str, type(None), P, Q, float, Color, Shape, Square, MetaK]
 assert all(isinstance(t, type) for t in F_TYPES)
 F_VALUES = [1, True, "s", None, P(), Q(), 1.5, Color.RED, Square(), MetaK()]
+@attr.s
+class FD:
+    """fields whose alias (the __init__ parameter name) differs from the name"""
+    _p = attr.ib()                    # private: name "_p", alias "p"
+    r = attr.ib(alias="q")            # explicit alias
+    y2 = attr.ib(alias="x")           # alias equal to ANOTHER field's name
+
+
 F_ATTRS = [attr.fields(FA).x, attr.fields(FA).y, attr.fields(FB).x, attr.fields(FC).x, attr.fields(FC).z]
 F_ATTRS.append(_sub_attr(F_ATTRS[0]))
+F_ATTRS += [getattr(attr.fields(FD), "_p"), attr.fields(FD).r, attr.fields(FD).y2]
+assert [a.alias for a in F_ATTRS[6:]] == ["p", "q", "x"] and [a.name for a in F_ATTRS[6:]] == ["_p", "r", "y2"]
 assert F_ATTRS[0] == F_ATTRS[2] and F_ATTRS[0] is not F_ATTRS[2] and F_ATTRS[0] != F_ATTRS[3]
 assert isinstance(F_ATTRS[5], attr.Attribute) and F_ATTRS[5] != F_ATTRS[0]
 F_SNAMES = [FieldName("y"), SE.z, FieldName("nope")]
@@ -1059,6 +1069,9 @@ F_UNIVERSE = ([("type", i) for i in (0, 1, 2, 4, 5)] + [("name", s) for s in ("x
 # metaclass other than `type`, names that are str-subclass instances, an Attribute subclass instance
 F_EXTENDED = ([("type", i) for i in (7, 8, 9, 10)] + [("sname", i) for i in range(len(F_SNAMES))]
               + [("attr", 5)])
+# ... and names / aliases of the fields whose alias differs from their name (only the NAME counts), and
+# those Attributes themselves
+F_ALIAS = [("name", n) for n in ("_p", "p", "q", "r", "y2")] + [("attr", 6), ("attr", 7)]
 F_JUNK_ITEMS = [("junk", i) for i in range(len(F_JUNK))]
 
 
@@ -1117,14 +1130,15 @@ def mk_filter_case(inp):
             sj.append([bool(ri), bool(re_)])
     term = "(KFilter %s %s %s)" % (lst(enc_witem(i) for i in items), lst(probes), lst(seen))
     ext = any(tuple(i) in F_EXTENDED for i in items)
-    return Case(term, inp, sj, sig={"part": "filters", "what_has_isinstance_only_item": ext},
+    return Case(term, inp, sj, sig={"part": "filters", "what_has_isinstance_only_item": ext,
+                                    "what_names_alias_or_private_field": any(tuple(i) in F_ALIAS for i in items)},
                 nontrivial=bool(items), key=term)
 
 
 def gen_filters(tier, rng):
     cases = []
     U = F_UNIVERSE
-    UE = F_UNIVERSE + F_EXTENDED
+    UE = F_UNIVERSE + F_EXTENDED + F_ALIAS
     # every what of size <= 2 over the whole universe, and every subset of the extended items
     subsets = [c for k in (0, 1, 2) for c in itertools.combinations(UE, k)]
     subsets += [c for k in range(3, len(F_EXTENDED) + 1) for c in itertools.combinations(F_EXTENDED, k)]
